@@ -5,10 +5,15 @@ import (
 	"encoding/json"
 	"fmt"
 
+	"time"
+
+	"github.com/shutter-network/rolling-shutter/rolling-shutter/app"
+
 	"verif/explore"
 	"verif/harness/appx"
 	"verif/maporder"
 	"verif/report"
+	"verif/shim/vos"
 )
 
 // C09 — shuttermint replicas never diverge.
@@ -106,6 +111,22 @@ func c09Transition(w *appx.World, n node, o appx.Op, bound int, st *report.Stats
 	a := appx.Clone(n.a)
 	resA := w.Step(a, o, n.nonce())
 	next = node{a: a, nops: n.nops + 1}
+	if o.Kind == "endblock" {
+		// a replica that saves its state at this commit (another one's save timer has
+		// not fired): nothing a replica answers or holds may depend on when it saves
+		vos.Cur = vos.New()
+		app.PersistMinDuration = -time.Hour
+		pr := appx.Clone(n.a)
+		pr.Gobpath = "/data/replica.gob"
+		resP := w.Step(pr, o, n.nonce())
+		st.Count("persisting_replica_commits", 1)
+		if !bytes.Equal(resA.Bytes, resP.Bytes) {
+			return next, nil, fmt.Sprintf("op %s: a replica that saves its state at this commit answers differently from one that does not", o)
+		}
+		if dA, dP := appx.StateDump(a), appx.StateDump(pr); dA != dP {
+			return next, nil, fmt.Sprintf("op %s: a replica that saves its state at this commit holds different state afterwards\nnot saving: %s\nsaving:     %s", o, dA, dP)
+		}
+	}
 	if maporder.Ranges == before {
 		st.Class("transition without multi-key map range")
 		return next, nil, ""
@@ -148,6 +169,7 @@ func c09() *report.Check {
 		Assumptions: []string{
 			"map iteration order is owned through a source rewrite of every range-over-map in app, keyper/shutterevents (regenerated from the current sources by cmd/rewrite); all permutations are offered, a superset of what the Go runtime produces",
 			"replicas are compared per transition from equal states (induction over the history)",
+			"wall clock / save timing: at every block end a second replica saves its state (real PersistToDisk on the in-memory file system) while the first does not; both must stay identical",
 		},
 		Shards:  func(bool) int { return 16 },
 		Budget:  minutes(3, 25),
